@@ -95,8 +95,23 @@ def page_fetch_and_late_put_cases(tier, seed):
             i += 1
 
 
+def asymmetric_serdes_cases(tier, seed):
+    """Custom serdes that cannot read back what they wrote, on every kind of operation that takes one: whatever the SDK makes of
+    that, the operation's record sequence stays a valid lifecycle (in particular nothing after its terminal record)."""
+    i = 0
+    for sd in ("writeonly", "outage"):
+        for body in ([{"k": "child", "body": [{"k": "step", "val": 1}], "cfg": {"serdes": sd}}, {"k": "step", "val": 2}],
+                     [{"k": "try", "body": {"k": "child", "body": [{"k": "step", "val": 1}], "cfg": {"serdes": sd}}, "catch": "*"}, {"k": "wait", "s": 1}, {"k": "step", "val": 2}],
+                     [{"k": "try", "body": {"k": "step", "val": {"a": 1}, "serdes": sd}, "catch": "*"}, {"k": "wait", "s": 1}, {"k": "step", "val": 2}],
+                     [{"k": "try", "body": {"k": "wfc", "init": 0, "decisions": [("cont", 1), ("stop",)], "serdes": sd}, "catch": "*"}, {"k": "step", "val": 2}],
+                     [{"k": "par", "branches": [{"body": [{"k": "step", "val": 1}]}, {"body": [{"k": "step", "val": 2}]}], "cfg": {"serdes": sd, "preset": "all_completed"}}, {"k": "wait", "s": 1}, {"k": "step", "val": 3}]):
+            yield {"label": "asymmetric-serdes", "prog": {"body": body}, "prog_seed": 27990 + i, "pattern": {"p": "plain"}, "max_inv": 8, "max_raises": 2}
+            i += 1
+
+
 def explicit_all(tier, seed):
     yield from explicit(tier, seed)
+    yield from asymmetric_serdes_cases(tier, seed)
     yield from small_batch_cases(tier, seed)
     yield from after_result_cases(tier, seed)
     yield from page_fetch_and_late_put_cases(tier, seed)
